@@ -940,6 +940,11 @@ impl<T: Send + Clone> BoundedSyncReceiver<T> {
 
   #[inline]
   pub fn len(&self) -> usize {
+    // A closed receiver has left the tail list: its cursor is frozen while the sender keeps
+    // advancing, so the distance to head is not a number of readable items any more.
+    if self.closed.load(Ordering::Relaxed) {
+      return 0;
+    }
     let head = self.shared.head.load(Ordering::Acquire);
     let tail = self.tail.load(Ordering::Acquire);
     head.saturating_sub(tail)
@@ -947,6 +952,9 @@ impl<T: Send + Clone> BoundedSyncReceiver<T> {
 
   #[inline]
   pub fn is_empty(&self) -> bool {
+    if self.closed.load(Ordering::Relaxed) {
+      return true;
+    }
     let head = self.shared.head.load(Ordering::Acquire);
     let tail = self.tail.load(Ordering::Acquire);
     tail >= head
@@ -1040,6 +1048,11 @@ impl<T: Send + Clone> BoundedAsyncReceiver<T> {
 
   #[inline]
   pub fn len(&self) -> usize {
+    // A closed receiver has left the tail list: its cursor is frozen while the sender keeps
+    // advancing, so the distance to head is not a number of readable items any more.
+    if self.closed.load(Ordering::Relaxed) {
+      return 0;
+    }
     let head = self.shared.head.load(Ordering::Acquire);
     let tail = self.tail.load(Ordering::Acquire);
     head.saturating_sub(tail)
@@ -1047,6 +1060,9 @@ impl<T: Send + Clone> BoundedAsyncReceiver<T> {
 
   #[inline]
   pub fn is_empty(&self) -> bool {
+    if self.closed.load(Ordering::Relaxed) {
+      return true;
+    }
     let head = self.shared.head.load(Ordering::Acquire);
     let tail = self.tail.load(Ordering::Acquire);
     tail >= head
